@@ -55,6 +55,11 @@ def run(run):
                 run.fail('str(relations(include_unary=%r))' % unary, s1, m1, [pc.line, r1], extra)
             if s2 != m2 or s2 != render(pc, items, False):
                 run.fail('relations(include_unary=%r).tostring()' % unary, s2, m2, [pc.line, r2], extra)
+            with guard(run, 'relations(include_unary=%r) again after the caller emptied the first result' % unary, [pc.line, r], ans):
+                del rels[:]
+                again = view(pc, pc.ctx.relations(include_unary=unary))
+            if again != ans:
+                run.fail('relations(include_unary=%r) after the caller emptied an earlier result' % unary, again, ans, [pc.line, r], extra)
             if not items:
                 run.count('empty results')
             # a second context with the same table and other property labels (statements are about labels)
